@@ -248,7 +248,7 @@ func TestVerifTraceSvc(t *testing.T) {
 		ctx, cancel := ctxT()
 		resp, err := tracev1.NewTraceServiceClient(sv.conn).Query(ctx, &tracev1.QueryRequest{Groups: []string{g}, Name: name, TimeRange: tsRange(lo, hi), Limit: 1000,
 			TagProjection: []string{"trace_id", "span_id", "dur"}, OrderBy: &modelv1.QueryOrder{IndexRuleName: "tr_dur", Sort: sortDir},
-			Criteria:      &modelv1.Criteria{Exp: &modelv1.Criteria_Condition{Condition: &modelv1.Condition{Name: "svc", Op: modelv1.Condition_BINARY_OP_EQ, Value: tStr("svc-1")}}}})
+			Criteria: &modelv1.Criteria{Exp: &modelv1.Criteria_Condition{Condition: &modelv1.Condition{Name: "svc", Op: modelv1.Condition_BINARY_OP_EQ, Value: tStr("svc-1")}}}})
 		cancel()
 		s.Count("tracesvc.ordered_queries", 1)
 		if err != nil {
